@@ -315,6 +315,20 @@ def main():
         L.append(f"/-- `{fn}`: a queue slot is reserved before the preamble task is spawned -/")
         L.append(f"abbrev {nm} : Bool := {'true' if first else 'false'}")
 
+    # ---- driver/streams/mod.rs: does `QuicSendStream::finish` always wait for `stopped()`?
+    rel2 = "wtransport/src/driver/streams/mod.rs"
+    s2 = rd(repo, rel2)
+    m = need(re.search(r"pub async fn finish\(&mut self\) -> Result<\(\), StreamWriteError> \{(.*?)\n    \}", s2, re.S),
+             f"{rel2}: QuicSendStream::finish")
+    body = m.group(1)
+    st = body.find("self.stopped().await")
+    if st < 0:
+        raise Missing(f"{rel2}: QuicSendStream::finish no longer awaits stopped()")
+    early = bool(re.search(r"\breturn\b|\?\s*;|\?\s*$", body[:st], re.M))
+    ex["FINISH_AWAITS_STOPPED"] = not early
+    L.append("/-- `QuicSendStream::finish`: no path returns before `stopped().await` -/")
+    L.append(f"abbrev FINISH_AWAITS_STOPPED : Bool := {'false' if early else 'true'}")
+
     # ---- driver/streams/settings.rs advertised settings
     rel = "wtransport/src/driver/streams/settings.rs"
     s = rd(repo, rel)
